@@ -38,7 +38,7 @@ def one(d):
         first = [l.strip() for l in o.splitlines() if l.strip().startswith("violated:")][:1]
         engine = ""
         if viol:
-            rp = re.search(r"replay=(\\S+)", viol[0]).group(1)
+            rp = re.search(r"replay=(\S+)", viol[0]).group(1)
             try:
                 engine = json.load(open(os.path.join(out, rp))).get("engine") or ""
             except Exception:
